@@ -84,29 +84,29 @@ func c06R1(p *core.Program, r *core.Report) {
 		info := f.Info()
 		g := graph(f)
 		at := g.PointOf(cs.Call)
-		// inside the right arm of a type switch over <entry>.Type()
-		var cc *ast.CaseClause
-		var ts *ast.TypeSwitchStmt
+		// the call happens where the dispatched value is known to be of the right kind: in the single-type
+		// clause of a type switch, or under a successful comma-ok assertion (typeFactsAt)
+		var tf *typeFact
+		for _, x := range typeFactsAt(f, cs.Call) {
+			if core.NamedTypeName(x.Type) == spec.arm {
+				xx := x
+				tf = &xx
+			}
+		}
 		path := core.PathTo(f.Body, cs.Call)
-		for k := len(path) - 1; k >= 0; k-- {
-			if c, ok := path[k].(*ast.CaseClause); ok && cc == nil {
-				cc = c
-			}
-			if t, ok := path[k].(*ast.TypeSwitchStmt); ok {
-				ts = t
-				break
-			}
-		}
-		armOK := false
-		if cc != nil && ts != nil && len(cc.List) == 1 && core.NamedTypeName(info.TypeOf(cc.List[0])) == spec.arm {
-			armOK = true
-		}
-		r.Check(armOK, rule, f, spec.what+" is reached only in the "+spec.arm[len("go/types."):]+" arm of the type switch", cs.Call.Pos(), "call nested in `case *types."+spec.arm[len("go/types."):]+":` (single type)",
+		r.Check(tf != nil, rule, f, spec.what+" is reached only in the "+spec.arm[len("go/types."):]+" arm of the type switch", cs.Call.Pos(), "call nested in `case *types."+spec.arm[len("go/types."):]+":` (single type) or under `x, ok := t.(*types."+spec.arm[len("go/types."):]+"); ok`",
 			spec.what+" can be invoked for a table entry that is not a *types."+spec.arm[len("go/types."):]+" (e.g. aliases dispatched to GenerateType)")
-		if cc == nil || ts == nil {
+		if tf == nil {
 			continue
 		}
-		x := info.Implicits[cc]
+		var x types.Object
+		if tf.Binding != nil {
+			x = tf.Binding
+		}
+		var cc ast.Node = tf.Scope
+		if _, isClause := cc.(*ast.CaseClause); !isClause {
+			cc = f.Body // definitions are looked up in the whole function for the comma-ok form
+		}
 		// the switch operand is the Type() of the table entry of this iteration
 		opOK := false
 		var loop *ast.RangeStmt
@@ -124,13 +124,9 @@ func c06R1(p *core.Program, r *core.Report) {
 				break
 			}
 		}
-		var ta *ast.TypeAssertExpr
-		if as, ok := ts.Assign.(*ast.AssignStmt); ok {
-			ta, _ = as.Rhs[0].(*ast.TypeAssertExpr)
-		}
 		var table *types.Var
-		if ta != nil && loop != nil {
-			e, _ := core.Resolve(info, f.Body, ta.X)
+		if loop != nil {
+			e, _ := core.Resolve(info, f.Body, tf.Operand)
 			if c, ok := ast.Unparen(e).(*ast.CallExpr); ok && strings.HasSuffix(core.CalleeName(info, c), ").Type") {
 				if ix, ok := ast.Unparen(recvOf(c)).(*ast.IndexExpr); ok && core.VarOf(info, ix.Index) == core.VarOf(info, loop.Value) && loop.Value != nil {
 					table = core.VarOf(info, ix.X)
@@ -138,7 +134,7 @@ func c06R1(p *core.Program, r *core.Report) {
 				}
 			}
 		}
-		r.Check(opOK, rule, f, "the dispatched type is the table entry of the current iteration", ts.Pos(), "switch x := table[name].Type().(type) with name the range value", "the type switch does not operate on the Type() of the current table entry")
+		r.Check(opOK, rule, f, "the dispatched type is the table entry of the current iteration", tf.Operand.Pos(), "switch x := table[name].Type().(type) with name the range value", "the type switch does not operate on the Type() of the current table entry")
 		// the table is <pkg>.Types() and the loop ranges over its sorted keys, once
 		if table != nil {
 			d, ok := core.SingleDef(info, f.Body, table)
@@ -197,6 +193,13 @@ func c06R1(p *core.Program, r *core.Report) {
 						enOK = true
 					} else if ta2, ok := ast.Unparen(passed).(*ast.TypeAssertExpr); ok && core.VarOf(info, ta2.X) == gv {
 						enOK = true
+					} else if pv != nil {
+						// the binding of a type switch / comma-ok assertion on the generator
+						for _, x := range typeFactsAt(f, cs.Call) {
+							if x.Binding == pv && core.VarOf(info, x.Operand) == gv {
+								enOK = true
+							}
+						}
 					}
 				}
 			}
@@ -204,15 +207,11 @@ func c06R1(p *core.Program, r *core.Report) {
 		r.Check(enOK, rule, f, spec.what+" is invoked only when the generator is enabled by the type's own effective tags", cs.Call.Pos(), "dominated by IsGeneratorEnabled(g, tags), tags, _ := c.Doc(x.Obj())",
 			spec.what+" is not guarded by IsGeneratorEnabled(g, tags-of-this-type): disabled types are generated (or another type's tags decide)")
 		if spec.arm == "go/types.Alias" {
-			// comma-ok assertion to AliasGenerator
+			// the generator is known to implement AliasGenerator (comma-ok or single-type clause)
 			asrt := false
-			for _, fct := range g.FactsAt(at) {
-				if v := core.VarOf(info, fct.Cond); v != nil && fct.Val {
-					if d, ok := core.SingleDef(info, cc, v); ok && d.Index == 1 {
-						if ta2, ok := ast.Unparen(d.Rhs).(*ast.TypeAssertExpr); ok && core.NamedTypeName(info.TypeOf(ta2.Type)) == core.G("pkg/gengo.AliasGenerator") {
-							asrt = true
-						}
-					}
+			for _, x := range typeFactsAt(f, cs.Call) {
+				if core.NamedTypeName(x.Type) == core.G("pkg/gengo.AliasGenerator") {
+					asrt = true
 				}
 			}
 			r.Check(asrt, rule, f, "aliases go only to generators that implement AliasGenerator", cs.Call.Pos(), "comma-ok assertion g.(AliasGenerator)", "the alias arm does not test g.(AliasGenerator) with comma-ok")
